@@ -7,30 +7,37 @@
      - L2 in full (C02_delivery_exact, C02_setoffset_next, C02_generation_exact, ...), with the
        contract as an explicit hypothesis on labels;
      - C02_conn_offset_advances in full, for arbitrary response bytes;
-     - L1 decoding: proved for layouts of v2 batches (any codec, oracle) and for layouts of uncompressed
-       v0/v1 messages, every offset and legal cut (C02_batch_decode_exact_v2_partial — compressed or not —,
-       C02_batch_decode_exact_legacy_uncompressed_partial, each linked to L2 by a C02_contract_*
-       theorem); the full statement is kept as a Definition.
+     - L1 decoding (C02_batch_decode_exact) and C02_progress: proved for every layout whose
+       formats are ordered (v0/v1 batches, then v2 batches) and whose sizes fit the wire format
+       ([wire_fits]) — v2 batches of any codec, plain v0/v1 messages, compressed v0/v1 wrappers,
+       record-less batches, compaction holes —, every fetch offset >= 0 with data at or after it
+       and every legal cut (C02_batch_decode_exact_ordered_partial, C02_progress_ordered_partial,
+       linked to L2 by C02_contract_ordered); decompression is an oracle with
+       decomp c (compress c x) = Some x.  The theorems for the families of responses this was
+       built from are kept (…_v2_partial, …_legacy_uncompressed_partial, …_legacy_then_v2_partial,
+       …_legacy_wrapped_then_v2_partial).  The statements without the size hypotheses are kept as
+       Definitions.
    Three defects of the code found by this check (F1 and two more) were fixed in /repo; their
    witnesses are kept below as regression Examples. *)
 From Coq Require Import List NArith ZArith Bool.
 From KV Require Import Lib.Bits Lib.Bytes Lib.Varint Model.MsgSetReader Model.ReaderModel Spec.FetchSpec
   Proofs.ReaderBatch Proofs.ReaderProofs Proofs.ReaderLTS
   Proofs.ReaderPrim Proofs.ReaderV2 Proofs.ReaderV2Run Proofs.ReaderV2Sound Proofs.ReaderV2Final
-  Proofs.ReaderV1 Proofs.ReaderV1Run Proofs.ReaderV1Final Proofs.ReaderMixedFinal.
+  Proofs.ReaderV1 Proofs.ReaderV1Run Proofs.ReaderV1Final Proofs.ReaderMixedFinal
+  Proofs.ReaderWrap Proofs.ReaderWrapInner Proofs.ReaderWrapRun Proofs.ReaderWrapFinal.
 Import ListNotations.
 Open Scope Z_scope.
 
 (* ------------------------------------------------------------------ L1: full statements *)
-Fixpoint formats_ordered (f : Z) (l : layout) {struct l} : Prop :=
-  match l with [] => True | b :: t => f <= pb_fmt b /\ formats_ordered (pb_fmt b) t end.
+(* [formats_ordered f l] (Proofs/ReaderWrapFinal.v): the formats of the batches of l never
+   decrease, starting at f — a partition's message format is only ever upgraded. *)
 
 (* C02_batch_decode_exact: for every log, layout (record-less batches included), fetch offset
    with data at or after it, and legal cut, reading the batch to its end yields exactly the
    stored records in [o, f) where f >= o is Conn.offset after Batch.close, then io.EOF.
-   NOT proved in this generality (v0/v1 messages, compressed wrappers and compressed v2 batches
-   are covered by the differential only); the proved part is the theorem
-   C02_batch_decode_exact_v2_uncompressed_partial below. *)
+   NOT proved without size hypotheses (an encoder cannot write a key of 2^40 bytes): the proved
+   form is C02_batch_decode_exact_ordered_partial below, which adds [Forall wire_fits l] (every
+   length fits its wire field), 0 <= o, and makes the fuel bound explicit. *)
 Definition C02_batch_decode_exact_full_statement : Prop :=
   forall (compress : Z -> list N -> list N) (decomp : Z -> list N -> option (list N)),
     (forall c x, decomp c (compress c x) = Some x) ->
@@ -143,9 +150,59 @@ Theorem C02_contract_legacy_then_v2 :
 Proof. exact contract_legacy_then_v2. Qed.
 Print Assumptions C02_contract_legacy_then_v2.
 
+(* proved: v0/v1 batches whose messages are plain OR inside a compressed wrapper message
+   ([lgc_ok]: format 0 or 1; codec 0, or codec 1..4 with the compressed inner message set below
+   2^30 bytes; keys and values below 2^29 bytes; v1 inner offsets relative to the batch base, v0
+   absolute), alone or followed by v2 batches of any codec, the fetch offset inside the v0/v1
+   part: the reader decompresses the wrapper, rebases the inner offsets on the wrapper's offset,
+   skips the inner messages below the fetch offset, and pops back to the response when the
+   inner set is exhausted; a wrapper that the cut truncates is not delivered at all *)
+Theorem C02_batch_decode_exact_legacy_wrapped_then_v2_partial :
+  forall (compress : Z -> list N -> list N) (decomp : Z -> list N -> option (list N)),
+  (forall c x, decomp c (compress c x) = Some x) ->
+  forall o log lg v2 k hwm,
+  log_ok log -> layout_ok log (lg ++ v2) ->
+  Forall (lgc_ok compress) lg -> Forall (fun b => pb_fmt b = 2) v2 -> Forall (v2ok compress) v2 -> 0 <= o ->
+  from_offset lg o <> [] -> valid_cut compress (lg ++ v2) o k -> hwm <> o ->
+  forall fuel, (length (all_items (from_offset lg o)) + tokens [] v2 + 5 <= fuel)%nat ->
+  exists ms f,
+    fetch_run decomp fuel o hwm (fetch_response compress (lg ++ v2) o k) (Z.of_nat k) false = Some (ms, EEOF, f)
+    /\ fetch_ok log o ms f.
+Proof. exact batch_decode_exact_legacy_wrapped_then_v2. Qed.
+Print Assumptions C02_batch_decode_exact_legacy_wrapped_then_v2_partial.
+
+(* proved: C02_batch_decode_exact for EVERY layout with ordered formats whose sizes fit the wire
+   format ([wire_fits]: [v2ok] for a v2 batch, [lgc_ok] for a v0/v1 batch), every fetch offset
+   o >= 0 with data at or after it, every legal cut; fuel0 = length log + length l + 5 *)
+Theorem C02_batch_decode_exact_ordered_partial :
+  forall (compress : Z -> list N -> list N) (decomp : Z -> list N -> option (list N)),
+  (forall c x, decomp c (compress c x) = Some x) ->
+  forall log l o k hwm,
+  log_ok log -> layout_ok log l -> formats_ordered 0 l -> Forall (wire_fits compress) l -> 0 <= o ->
+  from_offset l o <> [] -> valid_cut compress l o k -> hwm <> o ->
+  forall fuel, (length log + length l + 5 <= fuel)%nat ->
+  exists ms f,
+    fetch_run decomp fuel o hwm (fetch_response compress l o k) (Z.of_nat k) false = Some (ms, EEOF, f)
+    /\ fetch_ok log o ms f.
+Proof. exact batch_decode_exact_ordered. Qed.
+Print Assumptions C02_batch_decode_exact_ordered_partial.
+
+Theorem C02_contract_ordered :
+  forall (compress : Z -> list N -> list N) (decomp : Z -> list N -> option (list N)),
+  (forall c x, decomp c (compress c x) = Some x) ->
+  forall log l k hwm fuel g,
+  log_ok log -> layout_ok log l -> formats_ordered 0 l -> Forall (wire_fits compress) l -> 0 <= g_conn g ->
+  from_offset l (g_conn g) <> [] -> valid_cut compress l (g_conn g) k -> hwm <> g_conn g ->
+  (length log + length l + 5 <= fuel)%nat ->
+  ev_ok (fetch_run decomp fuel) log g
+        (GFetch (FData hwm (fetch_response compress l (g_conn g) k) (Z.of_nat k) false)).
+Proof. exact contract_ordered. Qed.
+Print Assumptions C02_contract_ordered.
+
 (* C02_progress: a response whose first batch (whole, by the cut rule) contains a record >= o
-   delivers at least one record.  Full statement kept as a Definition; proved for the three
-   families of responses below (compressed v0/v1 wrappers are the missing part). *)
+   delivers at least one record.  The statement without size hypotheses is kept as a Definition;
+   the proved form is C02_progress_ordered_partial (every ordered layout whose sizes fit the wire
+   format), after the theorems for the families of responses it was built from. *)
 Definition C02_progress_full_statement : Prop :=
   forall (compress : Z -> list N -> list N) (decomp : Z -> list N -> option (list N)),
     (forall c x, decomp c (compress c x) = Some x) ->
@@ -194,6 +251,33 @@ Theorem C02_progress_legacy_then_v2_partial :
   ms <> [].
 Proof. exact progress_legacy_then_v2. Qed.
 Print Assumptions C02_progress_legacy_then_v2_partial.
+
+Theorem C02_progress_legacy_wrapped_then_v2_partial :
+  forall (compress : Z -> list N -> list N) (decomp : Z -> list N -> option (list N)),
+  (forall c x, decomp c (compress c x) = Some x) ->
+  forall o log lg v2 k hwm,
+  log_ok log -> layout_ok log (lg ++ v2) ->
+  Forall (lgc_ok compress) lg -> Forall (fun b => pb_fmt b = 2) v2 -> Forall (v2ok compress) v2 -> 0 <= o ->
+  from_offset lg o <> [] -> valid_cut compress (lg ++ v2) o k -> hwm <> o ->
+  forall fuel ms e f, (length (all_items (from_offset lg o)) + tokens [] v2 + 5 <= fuel)%nat ->
+  fetch_run decomp fuel o hwm (fetch_response compress (lg ++ v2) o k) (Z.of_nat k) false = Some (ms, e, f) ->
+  ms <> [].
+Proof. exact progress_legacy_wrapped_then_v2. Qed.
+Print Assumptions C02_progress_legacy_wrapped_then_v2_partial.
+
+(* C02_progress for every ordered layout whose sizes fit the wire format *)
+Theorem C02_progress_ordered_partial :
+  forall (compress : Z -> list N -> list N) (decomp : Z -> list N -> option (list N)),
+  (forall c x, decomp c (compress c x) = Some x) ->
+  forall log l o k hwm,
+  log_ok log -> layout_ok log l -> formats_ordered 0 l -> Forall (wire_fits compress) l -> 0 <= o ->
+  valid_cut compress l o k -> hwm <> o ->
+  (exists b r, hd_error (from_offset l o) = Some b /\ In r (pb_recs b) /\ o <= r_off r) ->
+  forall fuel ms e f, (length log + length l + 5 <= fuel)%nat ->
+  fetch_run decomp fuel o hwm (fetch_response compress l o k) (Z.of_nat k) false = Some (ms, e, f) ->
+  ms <> [].
+Proof. exact progress_ordered. Qed.
+Print Assumptions C02_progress_ordered_partial.
 
 (* C02_conn_offset_advances, in full and for every response whatsoever (any bytes, any cut, any
    codec behaviour): Conn.offset after Batch.close is never below the offset the fetch was
